@@ -369,3 +369,11 @@ _extend('C19', ['penman.codec:PENMANCodec.format_triples', 'penman.codec:PENMANC
         note='PENMANCodec.format_triples / parse_triples hand the list and the line style on unchanged (stage view).')
 _extend('C01', ['penman.codec:PENMANCodec.format', 'penman.codec:PENMANCodec.parse'],
         note='PENMANCodec.format / parse hand tree, text and options on unchanged (stage view).')
+
+# role inversion under a shipped model is an involution only if its table never defines a role together
+# with its own inverse spelling: a fact about the live table (regex obligation), needed wherever edges
+# are inverted and read back under that model
+for _p in ('C13', 'C03', 'C02', 'C04'):
+    if 'models' not in UNITS[_p].setdefault('regex', []):
+        UNITS[_p]['regex'].append('models')
+    _extend(_p, note='The role table of the shipped AMR model defines no role together with its inverse spelling (regex fact over the live table).')
